@@ -102,6 +102,9 @@ def draw_output(sim: Sim, special: bool = True, max_rows: int = 6, max_cols: int
     from incomplete_cooperative.run.save import Output
     rows = 1 + sim.choose(max_rows, "rows")
     cols = 1 + sim.choose(max_cols, "cols")
+    if sim.flip(1, 10, "large-matrix"):  # results big enough to cross buffer / chunk boundaries (8 KiB .. 100 KiB of JSON)
+        rows = 20 + sim.choose(60, "rows-large")
+        cols = 10 + sim.choose(50, "cols-large")
     data = draw_matrix(sim, rows, cols, special)
     actions = draw_actions(sim, max(rows - 1, 1), cols)
     md = draw_metadata(sim)
